@@ -50,6 +50,18 @@ for i in range(1, 21):
     h = c['harness']
     rows.append(f"| {pid} | {h['kind']} ({h.get('bin') or h.get('test')}) | {', '.join(c['lean_modules'])} | {len(c['theorems'])} | {', '.join(masters) or '—'} | {esc('; '.join(c.get('modelled_not_verified', [])))[:500]} |")
 d = put(d, 'STATUS', '\n'.join(rows))
+tb = []
+for i in range(1, 21):
+    pid = 'C%02d' % i
+    fp = os.path.join(ROOT, 'checks', pid.lower() + '.py')
+    if not os.path.exists(fp):
+        continue
+    spec = importlib.util.spec_from_file_location(pid.lower() + '_tb', fp); mod = importlib.util.module_from_spec(spec); spec.loader.exec_module(mod)
+    c = mod.CONFIG
+    tb.append(f"* **{pid}** — " + ' / '.join(esc(x)[:400] for x in c.get('trusted_base', [])[:6]))
+    if c.get('hypothesis_backed'):
+        tb.append(f"  * hypothesis-backed (explored on the real code only, no theorem): " + esc('; '.join(map(str, c['hypothesis_backed'])))[:600])
+d = put(d, 'TRUSTED', '\n'.join(tb))
 d = put(d, 'FINDINGS', tbl)
 d = put(d, 'SEEDED', '\n'.join(sd))
 open(os.path.join(ROOT, 'DESIGN.md'), 'w').write(d)
